@@ -15,7 +15,7 @@ func init() {
 		Run: runC07,
 		Explanation: "Termination under fairness is not a static property; decided are the 'no lost wake-up' and fixed-point preconditions: (R7.1) wherever a reconcile step reports 'not done / retry' without an error, every path from that edge to the return stores a recheck time (rollout phases Progressing/Terminating/Disabling, continuous-release reset, both step machines for every traffic-manager call), every Manager method that uses the grace wrapper hands the remaining time to UpdateRecheckDuration, the Rollout and TrafficRouting Reconcile turn a pending recheck into RequeueAfter, and retry-style Manager methods return (true,nil) only from the grace wrapper (which sets the duration); " +
 			"(R7.2) no provider reports 'verified' in the pass that wrote (= C03 R3.3), so the grace loop cannot end early; (R7.3) the update target and the readiness criterion come from the same CalculateBatchContext (sibling rule over the three control planes) and each UpgradeBatch guard compares the context's own current/desired values (= C01 R1.1), so the target the controller sets is the one its readiness check waits for.",
-		NotDecided: "boundedness of the number of reconciles, provider idempotence build(build(x)) == build(x), the arithmetic 'partition restores to enough pods'; watch-event delivery.",
+		NotDecided:  "boundedness of the number of reconciles, provider idempotence build(build(x)) == build(x), the arithmetic 'partition restores to enough pods'; watch-event delivery.",
 		Assumptions: []string{"waiting for a BatchRelease status change, for user approval and for spec.paused to clear is woken by watch events and needs no timer"},
 	})
 }
